@@ -28,7 +28,11 @@ def make_copy(m):
     os.symlink(os.path.join(REPO, "tests"), os.path.join(d, "tests"))   # practice corpus and resources, read-only use
     if "patch" in m:
         subprocess.run(["git", "init", "-q", d], check=True)
-        r = subprocess.run(["git", "-C", d, "apply", "--unsafe-paths", os.path.join(HERE, m["patch"])])
+        r = subprocess.run(["git", "-C", d, "apply", "--unsafe-paths", os.path.join(HERE, m["patch"])], capture_output=True)
+        if r.returncode != 0:
+            # the context moved (later fix: commits nearby): let patch(1) look for it
+            with open(os.path.join(HERE, m["patch"]), "rb") as pf:
+                r = subprocess.run(["patch", "-p1", "-F3", "-s", "--no-backup-if-mismatch", "-d", d], stdin=pf, capture_output=True)
         if r.returncode:
             shutil.rmtree(d)
             raise SystemExit(f"patch {m['patch']} does not apply")
